@@ -208,6 +208,10 @@ class C01(Check):
                 if kind in ("hfunc", "hdata", "htls") and mode not in progen.DYNAMIC_MODES:
                     continue
                 for optlist in ([], ["--no-relax"]) if tier == "thorough" else ([],):
+                    if optlist and mode == "static-pie":
+                        # glibc's static-pie start-up code crashes under --no-relax when linked by GNU ld or lld
+                        # themselves: no reference for these cells (same exclusion as in C28)
+                        continue
                     cells.append((mode, kind, optlist))
         # shell objects are compiled once, before the pool starts
         for mode in MODES:
